@@ -109,6 +109,23 @@ CLAIMS = {
               "declaration/selection order and permuted domains) - both compared with each other, the model and the specification."),
         design='7/C18', technique='Coq proof (induction over rewrite derivations; corollary of C02) + translator tables + metamorphic correspondence',
         note=BASE_NOTE + " Declaration/selection order changes are column permutations handled by the harness; inherits C02's fragment."),
+    'C08': dict(
+        text=("Machine-checked for ALL finite histories (any length, any nesting) of block entries / exits / exceptions and iterator creations, "
+              "advances, closes and finalisations: C08_confined (mode = innermost enclosing mode-setting block, expression stack = enclosing "
+              "query blocks), C08_block_restores (leaving a block by any path restores what was active before it whatever happened to iterators "
+              "inside), C08_outside. The model reads from the source, through the translator on every run, whether a yield of An.evaluate sits "
+              "inside `with symbolic_mode(None)`: the theorems stop compiling if it does. Tie: mode variable, in_symbolic_mode(), what a @symbol "
+              "constructor returns, whether operators are rejected, and stack depth compared after EVERY step of generated histories."),
+        design='7/C08', technique='Coq proof (invariant over operation histories) + translator-extracted bracketing flags + step-wise correspondence',
+        note=BASE_NOTE + " PARTIAL with respect to `schedules`: single-threaded interleavings only (blocks x iterator life cycles x finalisation points); thread schedules on the class-level expression stack cannot be exhibited by an executable Gallina model. Finalisation is modelled as close (CPython reference counting)."),
+    'C09': dict(
+        text=("Machine-checked: C09_ambient - during evaluation (An.evaluate for an/infer, The.evaluate for the) predicates and instance "
+              "construction see NO symbolic mode whatever the ambient mode; proved from the bracketing facts the translator extracts from the "
+              "two methods on every run (every advance of the result generator inside `with symbolic_mode(None)`, the call of _evaluate_ in "
+              "The.evaluate inside one). Tie: every quantifier x condition kind (comparison, @predicate function, Predicate subclass, rule "
+              "inference) x dataset evaluated under ambient none / query / rule; the three outcomes must coincide."),
+        design='7/C09', technique='Coq proof over translator-extracted facts + differential correspondence across ambient modes',
+        note=BASE_NOTE + " The model is the mode seen during evaluation, not the evaluator itself: that predicates/constructors depend on the mode only through in_symbolic_mode() at call time is assumed (read in predicate.py) and validated by the correspondence."),
 }
 
 NOT_YET = {}
